@@ -2,6 +2,7 @@ package props
 
 import (
 	"fmt"
+	"math"
 	"testing"
 
 	"pgregory.net/rapid"
@@ -24,6 +25,10 @@ type C06Case struct {
 	B     string `json:"b"`
 	Wrap  string `json:"wrap"`
 	Focus *int   `json:"focus,omitempty"`
+	// Opts is "" (no option) or "prec:<eps>" on documents whose numbers are
+	// whole, so that the precision changes nothing about which elements
+	// are equal: the diff must have the same shape with and without it.
+	Opts string `json:"opts,omitempty"`
 }
 
 func c06wrap(v val.V, wrap string) (val.V, []ref.PathElem) {
@@ -88,7 +93,7 @@ func checkC06(c C06Case, r *rec.Rec) error {
 	da, prefix := c06wrap(av, c.Wrap)
 	db, _ := c06wrap(bv, c.Wrap)
 
-	d, pmsg, panicked := jdx.DiffSafe(jdx.Node(da), jdx.Node(db), nil)
+	d, pmsg, panicked := jdx.DiffSafe(jdx.Node(da), jdx.Node(db), jdx.Options(c.Opts))
 	if panicked {
 		return rec.Violated("Diff panicked: %s", pmsg)
 	}
@@ -208,6 +213,12 @@ func checkC06(c C06Case, r *rec.Rec) error {
 	partial := lcs > 0 && lcs < minLen
 	nontrivial := partial || len(hs) >= 2 || c.Focus != nil
 	cls := []string{"wrap=" + c.Wrap}
+	if c.Opts != "" {
+		cls = append(cls, "with-precision-option")
+	}
+	if len(aArr) > 256 && len(bArr) > 256 {
+		cls = append(cls, "both-longer-than-256")
+	}
 	if partial {
 		cls = append(cls, "partial-overlap")
 	}
@@ -233,7 +244,7 @@ func checkC06(c C06Case, r *rec.Rec) error {
 	if outer > 0 && len(hs) > outer {
 		cls = append(cls, "outer+inner-hunks")
 	}
-	r.Case(c.A+"|"+c.B+"|"+c.Wrap, nontrivial, cls...)
+	r.Case(c.A+"|"+c.B+"|"+c.Wrap+"|"+c.Opts, nontrivial, cls...)
 	if nontrivial {
 		r.Sample(c)
 	}
@@ -290,6 +301,37 @@ func TestC06Exhaustive(t *testing.T) {
 }
 
 func genC06(t *rapid.T) C06Case {
+	c := genC06base(t)
+	if gen.Chance(t, "precisionOpt", 15) && wholeNumbersOnly(c.A) && wholeNumbersOnly(c.B) {
+		c.Opts = "prec:0.1"
+	}
+	return c
+}
+
+func wholeNumbersOnly(text string) bool {
+	ok := true
+	var walk func(v val.V)
+	walk = func(v val.V) {
+		switch x := v.(type) {
+		case float64:
+			if x != math.Trunc(x) {
+				ok = false
+			}
+		case []val.V:
+			for _, e := range x {
+				walk(e)
+			}
+		case map[string]val.V:
+			for _, e := range x {
+				walk(e)
+			}
+		}
+	}
+	walk(val.MustParse(text))
+	return ok
+}
+
+func genC06base(t *rapid.T) C06Case {
 	wrap := gen.Pick(t, "wrap", []string{"", "key", "index", "deep"})
 	mode := gen.Int(t, "mode", 0, 3)
 	if mode == 3 {
@@ -319,6 +361,27 @@ func genC06(t *rapid.T) C06Case {
 	case 0: // long scalar arrays over small alphabets
 		alpha := gen.Int(t, "alpha", 2, 6)
 		n := gen.Int(t, "n", 0, 30)
+		if gen.Chance(t, "long", 8) {
+			n = gen.Int(t, "nLong", 60, 160)
+		}
+		if gen.Chance(t, "veryLong", 2) {
+			// longer than any plausible block size, edited at both ends
+			n = gen.Int(t, "nVeryLong", 300, 700)
+			a := make([]val.V, n)
+			for i := range a {
+				a[i] = float64(i % gen.Int(t, "mod", 2, 400))
+			}
+			b := append([]val.V{"head"}, a...)
+			if gen.Chance(t, "dropTail", 50) {
+				b = b[:len(b)-1]
+			}
+			b = append(b, "tail")
+			if gen.Chance(t, "rotate", 40) {
+				k := gen.Int(t, "rot", 1, 5)
+				b = append(append([]val.V{}, a[k:]...), a[:k]...)
+			}
+			return C06Case{A: val.JSON(a), B: val.JSON(b), Wrap: wrap}
+		}
 		a := make([]val.V, n)
 		for i := range a {
 			a[i] = c06symbols[gen.Int(t, "sym", 0, alpha-1)]
